@@ -186,9 +186,9 @@ type refPool struct {
 	ops, crossed int64
 	// dustPrec accumulates, per operation, liquidity * 4e-36 * max(1, 1/sqrtPrice^2): sqrt prices are
 	// 36-digit decimals, and a token0 amount L*(1/sa - 1/sb) moves by L*1e-36/s^2 per rounding of s
-	dustPrec *rat
-	minUptime    time.Duration // smallest uptime of any gauge created for the pool (0: none)
-	hasGauge     bool
+	dustPrec  *rat
+	minUptime time.Duration // smallest uptime of any gauge created for the pool (0: none)
+	hasGauge  bool
 }
 
 type refPos struct {
@@ -344,6 +344,7 @@ func (Engine) Execute(run *simcore.Run) {
 		run.StepIdx = i
 		switch st.Op {
 		case "advance", "restart":
+			idle := w.idleSnapshot()
 			if !end() {
 				return
 			}
@@ -369,6 +370,9 @@ func (Engine) Execute(run *simcore.Run) {
 				dt = 1
 			}
 			if !begin(dt) {
+				return
+			}
+			if !w.idleAccrual(idle, st.Op) {
 				return
 			}
 			run.Event(st.Op, "ok")
